@@ -426,6 +426,9 @@ def setup():
             problems.append("prefix-or-suffix-lost")
         for p in problems:
             mech = {"kind": "filename", "module": module, "func": func, "problem": p}
+            if p == "reserved":
+                # did the user name already hold a reserved dot-part as typed (the "_" prefix then shifts the clip)?
+                mech["typed_reserved"] = isinstance(userName, str) and any(q.lower() in md.RESERVED for q in userName.split("."))
             if p == "clash-casefold-only":
                 del mech["func"]       # one mechanism whichever entry point issued the name
             st.bad(mech,
@@ -598,7 +601,7 @@ GLIF_CLASSES = [
 ]
 PROBES = ["ds-precision", "ds-tostring-text", "ds-vf-partial-range", "ds-vf-no-subsets", "ds-empty-labelname", "ds-v4-info-kerning-false",
           "glif1-identifiers", "glif1-anchors-no-outline", "kern-collision", "names-reserved-long", "names-fold",
-          "names-misc-reserved", "names-misc-illegal", "map-knots"]
+          "names-misc-reserved", "names-misc-illegal", "names-reserved-after-shift", "map-knots"]
 
 
 def cases(tier, seed):
